@@ -33,6 +33,14 @@ Definition contract_step (s s' : state) (sym : name) (c c' : Z) : Prop :=
   \/ (c = 0 /\ c' = next_contract s /\ next_contract s' = next_contract s + 1
       /\ contracts s' = if next_contract s =? 0 then contracts s else set (next_contract s) sym (contracts s)).
 
+(** a new token comes from an issue or an ERC20 deployment, with the scale the message names *)
+Definition new_token_of (m : msg) (t : token) : Prop :=
+  match m with
+  | Issue _ _ _ _ scale _ _ _ => t_scale t = scale
+  | Deploy _ _ _ _ scale => t_scale t = scale
+  | _ => False
+  end.
+
 (** how one successful message may change the registry *)
 Inductive tok_step (m : msg) (s s' : state) : Prop :=
 | TSsame : tokens s' = tokens s -> minunits s' = minunits s -> nc s' = nc s -> tok_step m s s'
@@ -43,10 +51,10 @@ Inductive tok_step (m : msg) (s s' : state) : Prop :=
 | TSnew t :
     get (t_symbol t) (tokens s) = None -> get (t_minunit t) (minunits s) = None ->
     tokens s' = set (t_symbol t) t (tokens s) -> minunits s' = set (t_minunit t) (t_symbol t) (minunits s) ->
-    contract_step s s' (t_symbol t) 0 (t_contract t) -> tok_step m s s'.
+    contract_step s s' (t_symbol t) 0 (t_contract t) -> new_token_of m t -> tok_step m s s'.
 
 Lemma bank_only_next s s' : bank_only s s' -> nc s' = nc s.
-Proof. intros (B & S & ->). reflexivity. Qed.
+Proof. intros (B & S & -> & _ & _). reflexivity. Qed.
 
 Lemma upsert_fields s t :
   tokens (upsert_token s t) = set (t_symbol t) t (tokens s)
@@ -190,12 +198,15 @@ Proof.
   exists sym, t, x. repeat split; assumption.
 Qed.
 
+Lemma do_upgrade_inv s auth s' : do_upgrade s auth = ROk s' -> s' = s.
+Proof. unfold do_upgrade. intros H. inv_if H. inv_if H. inv_if H. inv_if H. inversion H. reflexivity. Qed.
+
 (** ** how each message changes the registry *)
 Lemma bank_only_tok_same m s s' : bank_only s s' -> tok_step m s s'.
 Proof. intros H. pose proof (bank_only_next _ _ H). apply bank_only_fields in H. destruct H as (Ht & Hm & _). apply TSsame; assumption. Qed.
 
-Lemma do_deploy_tok m s auth nm sym minu scale s' : IdInv s ->
-  do_deploy s auth nm sym minu scale = ROk s' -> tok_step m s s'.
+Lemma do_deploy_tok s auth nm sym minu scale s' : IdInv s ->
+  do_deploy s auth nm sym minu scale = ROk s' -> tok_step (Deploy auth nm sym minu scale) s s'.
 Proof.
   intros I. unfold do_deploy. intros H. inv_if H. cbv zeta in H.
   destruct (has minu (minunits s)) eqn:Eh.
@@ -218,8 +229,9 @@ Proof.
     destruct (upsert_fields s t') as (Hut & Hum & _).
     apply has_false in Eh. apply has_false in Es.
     apply TSnew with (t := t'); simpl; try assumption.
-    right. split; [reflexivity|]. split; [reflexivity|]. split; [reflexivity|].
-    unfold upsert_token. simpl. destruct (next_contract s =? 0); reflexivity.
+    + right. split; [reflexivity|]. split; [reflexivity|]. split; [reflexivity|].
+      unfold upsert_token. simpl. destruct (next_contract s =? 0); reflexivity.
+    + reflexivity.
 Qed.
 
 Lemma do_swapfee_only s sender receiver denom amt s' :
@@ -229,6 +241,7 @@ Proof.
   destruct (token_by_minunit s denom) as [tb|]; [|discriminate].
   destruct (get (t_minunit tb) (registry s)) as [[target ratio]|]; [|discriminate].
   destruct (token_by_minunit s target) as [tm|]; [|discriminate].
+  inv_if H.
   destruct (lossless_swap amt ratio (t_scale tb) (t_scale tm)) as [b mt].
   inv_if H. inv_bind H. inv_bind H. inv_bind H.
   eapply bank_only_trans; [eapply bank_send_only; eassumption|].
@@ -254,6 +267,7 @@ Proof.
     + rewrite Ht', Ht3, Hut, Ht1. reflexivity.
     + rewrite Hm', Hm3, Hum, Hm1. reflexivity.
     + left. split; [reflexivity|]. rewrite Hn', Hn3. transitivity (nc s1); [reflexivity|exact Hn1].
+    + reflexivity.
   - (* Edit *)
     apply do_edit_inv in H. destruct H as (t & Ht & Ho & _ & ->).
     eapply TSupd with (sym := sym) (t := t); [eassumption|reflexivity|reflexivity|repeat split| |left; split; reflexivity].
@@ -307,12 +321,14 @@ Proof.
     apply bank_mint_only, bank_only_fields in Hm. destruct Hm as (Ht1 & Hm1 & _).
     apply bank_pay_only, bank_only_fields in Hp. destruct Hp as (Ht2 & Hm2 & _).
     apply TSsame; simpl in *; congruence.
+  - (* UpgradeErc20 *)
+    apply do_upgrade_inv in H. subst s'. apply TSsame; reflexivity.
 Qed.
 
 (** ** the registry invariant is preserved by every message *)
 Lemma tok_step_IdInv m s s' : IdInv s -> tok_step m s s' -> IdInv s'.
 Proof.
-  intros I [Ht Hm _ | sym t t' Hg Ht Hm (Hsy & Hmu & _) _ _ | t Hs Hmn Ht Hm _].
+  intros I [Ht Hm _ | sym t t' Hg Ht Hm (Hsy & Hmu & _) _ _ | t Hs Hmn Ht Hm _ _].
   - constructor; rewrite Ht, Hm; apply I.
   - destruct (id_sym s I sym t Hg) as [Hts Htm].
     constructor; rewrite Ht, Hm.
@@ -359,7 +375,7 @@ Proof.
   destruct (step_cases s m) as [(s' & E & ->)|[_ ->]]; [|assumption].
   assert (Hc : step_code s m = 0) by (unfold step_code; rewrite E; reflexivity).
   apply exec_inv in E. destruct E as [_ E].
-  destruct (handle_tok_step s m s' I E) as [Ht Hm _ | sym0 t0 t' Hg0 Ht Hm Hid Hgov _ | t0 Hs Hmn Ht Hm _].
+  destruct (handle_tok_step s m s' I E) as [Ht Hm _ | sym0 t0 t' Hg0 Ht Hm Hid Hgov _ | t0 Hs Hmn Ht Hm _ _].
   - rewrite Ht. assumption.
   - rewrite Ht, get_set. destruct (eqb sym sym0) eqn:Es.
     + apply eqb_eq in Es. subst sym0. rewrite Hg in Hg0. inversion Hg0; subst t0.
@@ -387,7 +403,7 @@ Lemma step_minunit s m mu sym : IdInv s -> get mu (minunits s) = Some sym -> get
 Proof.
   intros I Hg. destruct (step_cases s m) as [(s' & E & ->)|[_ ->]]; [|assumption].
   apply exec_inv in E. destruct E as [_ E].
-  destruct (handle_tok_step s m s' I E) as [Ht Hm _ | sym0 t0 t' Hg0 Ht Hm Hid Hgov _ | t0 Hs Hmn Ht Hm _]; rewrite Hm; try assumption.
+  destruct (handle_tok_step s m s' I E) as [Ht Hm _ | sym0 t0 t' Hg0 Ht Hm Hid Hgov _ | t0 Hs Hmn Ht Hm _ _]; rewrite Hm; try assumption.
   rewrite get_set_other; [assumption|]. intros Heq. subst mu. congruence.
 Qed.
 
@@ -618,6 +634,8 @@ Proof.
     unfold do_set_params in H. inv_if H. inversion H. split; assumption.
   - (* EvmMode *)
     inversion H. split; assumption.
+  - (* UpgradeErc20 *)
+    apply do_upgrade_inv in H. subst s'. split; assumption.
 Qed.
 
 Record CapInv (s : state) : Prop := { cap_id : IdInv s; cap_reg : SupReg s; cap_ok : CapOK s }.
@@ -734,6 +752,7 @@ Proof.
   - inversion E. reflexivity.
   - apply do_hook_inv in E. destruct E as (sym0 & t & s2 & _ & _ & _ & _ & _ & _ & Hm & Hp).
     rewrite (burned_of_bank_only _ _ d (bank_pay_only _ _ _ _ _ Hp)), (burned_of_bank_only _ _ d (bank_mint_only _ _ _ _ Hm)). reflexivity.
+  - apply do_upgrade_inv in E. subst s'. reflexivity.
 Qed.
 
 Lemma run_burned ms : forall s d, IdInv s -> burned_of (run s ms) d = burned_of s d + burnt_in s ms d.
@@ -907,7 +926,7 @@ Qed.
 
 Lemma tok_step_CtrInv m s s' : CtrInv s -> tok_step m s s' -> CtrInv s'.
 Proof.
-  intros C [Ht Hm Hn | sym t t' Hg Ht Hm _ _ Hc | t Hs Hmn Ht Hm Hc].
+  intros C [Ht Hm Hn | sym t t' Hg Ht Hm _ _ Hc | t Hs Hmn Ht Hm Hc _].
   - injection Hn as Hn1 Hn2. destruct C as [P L J X]. constructor; rewrite ?Ht, ?Hn1, ?Hn2; assumption.
   - apply (ctr_update s s' sym t' C Ht). destruct Hc as [[Hc Hn]|(Hz & Hc & Hn & Hcs)].
     + injection Hn as Hn1 Hn2. left. split; [left; exists t; split; assumption|split; assumption].
